@@ -14,6 +14,7 @@ import (
 	"github.com/markusressel/fan2go/internal/curves"
 	"github.com/markusressel/fan2go/internal/fans"
 	"github.com/markusressel/fan2go/internal/persistence"
+	"github.com/markusressel/fan2go/internal/simhook"
 	"github.com/markusressel/fan2go/internal/ui"
 	"github.com/markusressel/fan2go/internal/util"
 	"github.com/oklog/run"
@@ -139,6 +140,7 @@ func (f *DefaultFanController) Run(ctx context.Context) error {
 	ui.Info("Gathering sensor data for %s...", fan.GetId())
 	// wait a bit to gather monitoring data
 	time.Sleep(2*time.Second + configuration.CurrentConfig.TempSensorPollingRate*2)
+	simhook.Yield("ctl.startup", fan.GetId())
 
 	// check if we have data for this fan in persistence,
 	// if not we need to run the initialization sequence
@@ -197,10 +199,13 @@ func (f *DefaultFanController) Run(ctx context.Context) error {
 			for {
 				select {
 				case <-ctx.Done():
+					simhook.Yield("rpm.done", fan.GetId())
 					ui.Info("Stopping RPM monitor of fan controller for fan %s...", fan.GetId())
 					return nil
 				case <-tick.C:
+					simhook.Yield("rpm.tick", fan.GetId())
 					f.measureRpm(fan)
+					simhook.Yield("rpm.poll.end", fan.GetId())
 				}
 			}
 		}, func(err error) {
@@ -213,15 +218,19 @@ func (f *DefaultFanController) Run(ctx context.Context) error {
 	{
 		g.Add(func() error {
 			time.Sleep(1 * time.Second)
+			simhook.Yield("ctl.delay", fan.GetId())
 			tick := time.NewTicker(f.updateRate)
 			for {
 				select {
 				case <-ctx.Done():
+					simhook.Yield("ctl.done", fan.GetId())
 					ui.Info("Stopping fan controller for fan %s...", fan.GetId())
 					f.restorePwmEnabled()
 					return nil
 				case <-tick.C:
+					simhook.Yield("ctl.tick", fan.GetId())
 					err = f.UpdateFanSpeed()
+					simhook.Yield("ctl.cycle.end", fan.GetId())
 					if err != nil {
 						ui.ErrorAndNotify("Fan Control Error", "Fan %s: %v", fan.GetId(), err)
 						f.restorePwmEnabled()
@@ -569,6 +578,7 @@ func (f *DefaultFanController) findClosestDistinctTarget(target int) int {
 // computePwmMap computes a mapping between "requested pwm value" -> "actual set pwm value"
 func (f *DefaultFanController) computePwmMap() (err error) {
 	if !configuration.CurrentConfig.RunFanInitializationInParallel {
+		simhook.BeforeLock(&InitializationSequenceMutex)
 		InitializationSequenceMutex.Lock()
 		defer InitializationSequenceMutex.Unlock()
 	}
